@@ -75,8 +75,12 @@ def generate(seed, tier):
                     extra.append(['update', rng.choice(NAMEPOOL), [rand_value(rng) for _ in range(rng.randint(1, 4))]])
                 elif r2 < 0.92:
                     extra.append(['rename', rng.choice(names), rng.choice(NAMEPOOL)])
-                elif r2 < 0.97:
+                elif r2 < 0.945:
                     extra.append(['names_mutate', rng.choice(['sort', 'reverse', 'clear', 'append'])])
+                elif r2 < 0.97:
+                    # a reader asks for a series by name (it may not exist): reading is not writing
+                    extra.append(['lookup', rng.choice(NAMEPOOL + ['no_such_series', 'GOV__FISCAL_BALANCE']),
+                                  rng.choice(['item', 'item', 'get', 'in'])])
                 else:
                     extra.append(['append', rng.choice(NAMEPOOL), rand_value(rng)])
             for e in extra:
@@ -190,7 +194,7 @@ def execute(case):
         h = TimeSeriesHolder(case.get('holder_name', 'k'))
         ref = {}
         for step in case['appends']:
-            if step[0] not in ('append', 'setitem', 'update', 'del', 'render', 'rename', 'names_mutate'):   # old replay format [name, value]
+            if step[0] not in ('append', 'setitem', 'update', 'del', 'render', 'rename', 'names_mutate', 'lookup'):   # old replay format [name, value]
                 step = ['append', step[0], step[1]]
             kind = step[0]
             if kind == 'append':
@@ -212,6 +216,18 @@ def execute(case):
                     h[step[2]] = h.pop(step[1])
                     ref[step[2]] = ref.pop(step[1])
                     stats['probes']['series_renamed'] = 1
+            elif kind == 'lookup':
+                try:
+                    if step[2] == 'item':
+                        h[step[1]]
+                    elif step[2] == 'get':
+                        h.get(step[1])
+                    else:
+                        step[1] in h
+                except KeyError:
+                    pass
+                if step[1] not in ref:
+                    stats['probes']['unknown_series_looked_up'] = 1
             elif kind == 'names_mutate':
                 # the caller plays with the list of names it was handed
                 lst = h.GetSeriesList()
